@@ -149,13 +149,22 @@ def run(ctx):
     drv = leanlib.driver(ctx)
     htoy = cc.build_toy(ctx)
     hreal = cc.build_real(ctx)
-    if not drv or not htoy or not hreal:
-        return
     n = 400 if ctx.tier == "quick" else 4000
-    two_pass(ctx, htoy, drv, "roundtrip-toy", K.enc_cases(ctx.rng, n))
+    if drv and htoy:
+        two_pass(ctx, htoy, drv, "roundtrip-toy", K.enc_cases(ctx.rng, n))
+    if not hreal:                   # (a harness that does not build is a failed obligation already)
+        return
     sizes = K.SIZES + ([4096, 65536] if ctx.tier == "quick" else [4096, 65536, 300000, 786000])
     two_pass(ctx, hreal, drv, "roundtrip-real", K.enc_cases(ctx.rng, n // 2, sizes), model=False)
-    client_level(ctx, drv)
+    if drv:
+        client_level(ctx, drv)
+    # the top of the payload range: everything the daemon accepts at encode must decode (compressed payloads whose inner layer
+    # exceeds the request limit, an incompressible payload whose credential just fits)
+    big = []
+    for (c, z, n, kind) in [(0, 3, 1048556, "c"), (0, 2, 1048556, "c"), (4, 3, 1048536, "c"), (4, 3, 1048550, "t"), (0, 3, 1048537, "t"), (0, 0, 786000, "r"), (4, 0, 700000, "r")]:
+        data = bytes([66]) * n if kind == "c" else (b"munge credential payload " * (n // 25 + 1))[:n] if kind == "t" else ctx.rng.randbytes(n)
+        big.append(dict(cipher=c, mac=5, zip=z, ttl=300, auth_uid=cc.ANY, auth_gid=cc.ANY, data=data, realm=b"", uid=1, gid=1, now=1000000, rnd=bytes(24)))
+    two_pass(ctx, hreal, drv, "roundtrip-real-large", big, model=False)
     # size limit: real build only (the model's list-based base64 is quadratic)
     lim = size_limit_ops(ctx.rng)
     rc, out, err = cbuild.run_lines([hreal], [o for o, _ in lim], timeout=600)
